@@ -636,6 +636,19 @@ func makeIntrinsics() map[string]intrinsic {
 		q := Ite(IntCmp(">=", x, zero), mk("div", SInt, x, k), IntBin("-", zero, mk("div", SInt, IntBin("-", zero, x), k)))
 		return &bigV{v: q}
 	}
+	m["cosmossdk.io/math.NewIntWithDecimal"] = func(st *State, fr *frame, a []value, cc *ssa.CallCommon) value {
+		n, ok1 := asConcreteInt(a[0])
+		d, ok2 := asConcreteInt(a[1])
+		if !ok1 || !ok2 || d < 0 {
+			panic(pathEnd{kind: "unsupported", msg: "NewIntWithDecimal with symbolic arguments"})
+		}
+		r := new(big.Int).Mul(big.NewInt(int64(n)), new(big.Int).Exp(big.NewInt(10), big.NewInt(int64(d)), nil))
+		if r.BitLen() > 256 {
+			panic(pathEnd{kind: "panic", msg: "NewIntWithDecimal() out of bound"})
+		}
+		return &bigV{v: IntConst(r)}
+	}
+	m["cosmossdk.io/math.OneInt"] = func(st *State, fr *frame, a []value, cc *ssa.CallCommon) value { return &bigV{v: IntConst(big.NewInt(1))} }
 	m["cosmossdk.io/math.ZeroInt"] = func(st *State, fr *frame, a []value, cc *ssa.CallCommon) value { return &bigV{v: IntConst(big.NewInt(0))} }
 	m["cosmossdk.io/math.NewIntFromUint64"] = func(st *State, fr *frame, a []value, cc *ssa.CallCommon) value {
 		return &bigV{v: BV2Nat(a[0].(*Term))}
